@@ -117,7 +117,7 @@ pub fn spaces(tier: Tier) -> Vec<Space<'static>> {
                     }
                 }
                 // the same pair with the text side(s) in two other spellings (all \\uXXXX; short escapes incl. \\/)
-                for style in [1u8, 2] {
+                for style in [1u8, 2, 3] {
                     let (si, sj) = (refmodel::text::print_styled(&d.vals[i], style), refmodel::text::print_styled(&d.vals[j], style));
                     for (cfg, a, b) in [("styled-text,bin", si.as_bytes(), &d.bytes[j][..]), ("bin,styled-text", &d.bytes[i][..], sj.as_bytes()), ("styled-text,text", si.as_bytes(), tj)] {
                         acc.eval();
